@@ -201,7 +201,7 @@ def _phase(p):
             attached = True
         elif name == "obj_pin" and good:
             pinned = True
-        elif decided and good and (
+        elif decided and (          # attempted: that is the error path
                 (name == "rmtree" and args[0] == LOCKDIR)
                 or (name == "remove" and args[0].startswith(LOCKDIR + "/"))):
             gaveup = True
@@ -721,6 +721,10 @@ def run(ctx):
         "<lockdir>/<ethertype>.lock of every RUNNING participant exists; "
         "lock files of participants that are still starting (not running) "
         "may vanish with a failing installer's directory",
+        "invariant 1: 'installing' = between `rename onto the lock "
+        "directory succeeded` and `attached and pinned`, per session; an "
+        "installer that has entered its error path (attempted to remove the "
+        "lock directory or its own lock file) is not installing any more",
         "invariant 4 compares the windows of participants that hold them at "
         "the same time (both running); re-use of a window after its owner "
         "released it is allowed",
